@@ -505,29 +505,67 @@ func init() {
 			if fi == nil {
 				return
 			}
-			n := 0
+			// every match of the parameter's syntax (type switch or assertions) is made on an expression that went
+			// through Unparen: directly, through a local, or because the parameter itself was reassigned first
+			var param *types.Var
+			for _, f := range fi.Decl.Type.Params.List {
+				for _, nm := range f.Names {
+					if v, ok := fi.Info.Defs[nm].(*types.Var); ok && types.TypeString(v.Type(), nil) == "go/ast.Expr" {
+						param = v
+					}
+				}
+			}
+			reassigned := token.NoPos // position after which the parameter holds Unparen(parameter)
 			fi.inspect(fi.Decl.Body, func(nd ast.Node) bool {
-				ts, ok := nd.(*ast.TypeSwitchStmt)
-				if !ok {
-					return true
-				}
-				var subj ast.Expr
-				switch a := ts.Assign.(type) {
-				case *ast.AssignStmt:
-					if ta, ok := ast.Unparen(a.Rhs[0]).(*ast.TypeAssertExpr); ok {
-						subj = ta.X
-					}
-				case *ast.ExprStmt:
-					if ta, ok := ast.Unparen(a.X).(*ast.TypeAssertExpr); ok {
-						subj = ta.X
+				as, ok := nd.(*ast.AssignStmt)
+				if ok && len(as.Lhs) == 1 && len(as.Rhs) == 1 && as.Tok == token.ASSIGN && fi.varOf(as.Lhs[0]) == param && param != nil {
+					if cl := fi.isCall(as.Rhs[0], "golang.org/x/tools/go/ast/astutil.Unparen", "go/ast.Unparen"); cl != nil && fi.varOf(cl.Args[0]) == param && fi.unconditionalIn(as, fi.Decl.Body) {
+						reassigned = as.End()
 					}
 				}
-				if subj == nil || !fi.isParam(fi.varOf(unparenArg(fi, subj))) {
-					return true
+				return true
+			})
+			n := 0
+			check := func(subj ast.Expr, at token.Pos, what string) {
+				if subj == nil {
+					return
+				}
+				root := unparenArg(fi, subj)
+				if fi.varOf(root) != param || param == nil {
+					return
 				}
 				n++
 				okU := fi.isCall(fi.deref(subj), "golang.org/x/tools/go/ast/astutil.Unparen", "go/ast.Unparen") != nil
-				r.Check(okU, "qualifiedIdentObject/unparen", ts.Pos(), "the expression is unparenthesised before it is matched")
+				if !okU && reassigned.IsValid() && at > reassigned && fi.varOf(subj) == param {
+					okU = true
+				}
+				r.Check(okU, "qualifiedIdentObject/unparen"+what, at, "the expression is unparenthesised before it is matched")
+			}
+			fi.inspect(fi.Decl.Body, func(nd ast.Node) bool {
+				switch x := nd.(type) {
+				case *ast.TypeSwitchStmt:
+					var subj ast.Expr
+					switch a := x.Assign.(type) {
+					case *ast.AssignStmt:
+						if ta, ok := ast.Unparen(a.Rhs[0]).(*ast.TypeAssertExpr); ok {
+							subj = ta.X
+						}
+					case *ast.ExprStmt:
+						if ta, ok := ast.Unparen(a.X).(*ast.TypeAssertExpr); ok {
+							subj = ta.X
+						}
+					}
+					check(subj, x.Pos(), "")
+					return true
+				case *ast.TypeAssertExpr:
+					if x.Type != nil {
+						k := ""
+						if n > 0 {
+							k = "#" + itoa(n)
+						}
+						check(x.X, x.Pos(), k)
+					}
+				}
 				return true
 			})
 			r.Floor("syntax matches in qualifiedIdentObject", n, 1)
